@@ -147,6 +147,9 @@ pub fn run_campaign<C: Campaign>(c: &C, ctx: &Ctx, cases_per_worker: u32) -> Sta
                 let mut runner = TestRunner::new(cfg);
                 let stats = std::cell::RefCell::new(Stats::default());
                 let failed = std::cell::Cell::new(false);
+                // the most recent failing observation: proptest only moves on to a simpler case after a failure,
+                // so this is the observation made on the case it finally reports
+                let last_seen: std::cell::RefCell<Option<Violation>> = std::cell::RefCell::new(None);
                 let strat = c.strategy();
                 let res = runner.run(&strat, |case| {
                     if stop.load(Ordering::Relaxed) && !failed.get() {
@@ -163,6 +166,7 @@ pub fn run_campaign<C: Campaign>(c: &C, ctx: &Ctx, cases_per_worker: u32) -> Sta
                     }
                     if let Some(v) = unknown.first() {
                         failed.set(true);
+                        *last_seen.borrow_mut() = Some(v.clone());
                         stop.store(true, Ordering::Relaxed);
                         return Err(TestCaseError::fail(format!("{}|{}", v.property, v.signature)));
                     }
@@ -173,10 +177,17 @@ pub fn run_campaign<C: Campaign>(c: &C, ctx: &Ctx, cases_per_worker: u32) -> Sta
                     // re-run the minimal case to get its report
                     let rep = c.run_case(&minimal, w);
                     let (unknown, _) = triage(findings, &rep);
-                    let v = unknown.first().cloned().unwrap_or(Violation {
-                        property: ctx.property.clone(),
-                        signature: "unstable".into(),
-                        message: "the shrunk case did not fail again when re-run (non-deterministic failure)".into(),
+                    let v = unknown.first().cloned().unwrap_or_else(|| match last_seen.borrow().clone() {
+                        // a race: what was seen is reported as it was seen, the saved case may need several replays
+                        Some(mut seen) => {
+                            seen.message = format!("{} [seen on this case, but it did not fail again when re-run once: depends on timing, replay it several times]", seen.message);
+                            seen
+                        }
+                        None => Violation {
+                            property: ctx.property.clone(),
+                            signature: "unstable".into(),
+                            message: "the shrunk case did not fail again when re-run (non-deterministic failure)".into(),
+                        },
                     });
                     st.failures.push((v, serde_json::to_value(&minimal).unwrap()));
                 } else if let Err(TestError::Abort(r)) = res {
